@@ -43,6 +43,8 @@ for t in sorted(glob.glob(os.path.join(tdir, 'C*.txt'))):
     if KNOWN.get(pid):
         note5 += ' The following are known and still present - do not report these either, look for something else:\n' + '\n'.join(f'   - {k}' for k in KNOWN[pid])
     note5 += '\n\n'
+    if 'NOTE 5:' in s:      # the template is an earlier round's prompt: drop its NOTE 5, a fresh one follows
+        s = s[:s.index('NOTE 5:')] + s[s.index('DELIVERABLES'):]
     c = s.index('DELIVERABLES')
     s = s[:c] + note5 + s[c:]
     open(os.path.join(odir, f'{pid}.txt'), 'w').write(s)
